@@ -10,7 +10,7 @@ import os
 import sys
 from concurrent.futures import ProcessPoolExecutor
 
-from ..srcmodel import AnalysisError, Repo
+from ..srcmodel import AnalysisError, Repo, U
 from ..report import load_known, match_known
 
 
@@ -244,7 +244,7 @@ def transform_tree(source, how):
 
 
 TREE2 = ('NOTIN', 'TUPSPLIT', 'IFEXPSTMT', 'WHILEBRK', 'COMPLOOP', 'LAMBDADEF', 'NPALIAS', 'ELSEWRAP', 'ELSEUNWRAP', 'CHAINCMP', 'RANGE0',
-         'EMPTYLIT', 'KWCALL', 'DOCSTRIP', 'CONDTMP', 'RECVTMP', 'LOOPUNPACK', 'TUPJOIN', 'ANDSPLIT', 'ANDJOIN')
+         'EMPTYLIT', 'KWCALL', 'DOCSTRIP', 'CONDTMP', 'RECVTMP', 'LOOPUNPACK', 'TUPJOIN', 'ANDSPLIT', 'ANDJOIN', 'AUGSPLIT', 'ENUMIDX', 'ITEMSLOOP')
 SITES = {}
 
 
@@ -629,6 +629,81 @@ def transform_tree2(tree, how):
                     return ast.If(test=st.test.values[0], body=[inner], orelse=[], lineno=st.lineno, col_offset=st.col_offset)
                 return st
         tree = AS().visit(tree)
+    elif how == 'AUGSPLIT':
+        # x op= e -> x = x op e   for locals that hold python numbers (initialised from a numeric literal in the same function: immutable,
+        # so the augmented form rebinds as well)
+        for fn in [n for n in ast.walk(tree) if isinstance(n, ast.FunctionDef)]:
+            scal = set()
+            multi = {}
+            for n in ast.walk(fn):
+                if isinstance(n, ast.Assign) and len(n.targets) == 1 and isinstance(n.targets[0], ast.Name):
+                    multi.setdefault(n.targets[0].id, []).append(n.value)
+            for nm, vals in multi.items():
+                if all(isinstance(v, ast.Constant) and isinstance(v.value, (int, float)) and not isinstance(v.value, bool) for v in vals):
+                    scal.add(nm)
+
+            class A(ast.NodeTransformer):
+                def visit_FunctionDef(self, node):
+                    if node is fn:
+                        self.generic_visit(node)
+                    return node
+
+                def visit_AugAssign(self, st):
+                    if isinstance(st.target, ast.Name) and st.target.id in scal:
+                        count[0] += 1
+                        return ast.copy_location(ast.Assign(targets=[ast.Name(id=st.target.id, ctx=ast.Store())],
+                                                            value=ast.BinOp(left=ast.Name(id=st.target.id, ctx=ast.Load()), op=st.op, right=st.value)), st)
+                    return st
+            A().visit(fn)
+    elif how == 'ENUMIDX':
+        # for x in S: (S a plain name / attribute, body does not assign it)  ->  for _i, x in enumerate(S):
+        k = [0]
+        for n in ast.walk(tree):
+            if isinstance(n, ast.For) and isinstance(n.target, ast.Name) and isinstance(n.iter, (ast.Name, ast.Attribute)) and not n.orelse:
+                k[0] += 1
+                count[0] += 1
+                n.target = ast.Tuple(elts=[ast.Name(id='_i%d' % k[0], ctx=ast.Store()), n.target], ctx=ast.Store())
+                n.iter = ast.Call(func=ast.Name(id='enumerate', ctx=ast.Load()), args=[n.iter], keywords=[])
+    elif how == 'ITEMSLOOP':
+        # for k in D: .. D[k] ..   ->   for k, _v in D.items(): .. _v ..     (D a plain name, not stored to / mutated in the loop, k not reassigned)
+        kk = [0]
+        for n in ast.walk(tree):
+            if not (isinstance(n, ast.For) and isinstance(n.target, ast.Name) and isinstance(n.iter, ast.Name) and not n.orelse):
+                continue
+            D, k_ = n.iter.id, n.target.id
+            reads = [x for b in n.body for x in ast.walk(b) if isinstance(x, ast.Subscript) and isinstance(x.ctx, ast.Load)
+                     and isinstance(x.value, ast.Name) and x.value.id == D and isinstance(x.slice, ast.Name) and x.slice.id == k_]
+            unsafe = any((isinstance(x, ast.Name) and x.id in (D, k_) and isinstance(x.ctx, (ast.Store, ast.Del))) or
+                         (isinstance(x, ast.Subscript) and isinstance(x.ctx, (ast.Store, ast.Del)) and U(x.value) == D) or
+                         (isinstance(x, ast.Call) and isinstance(x.func, ast.Attribute) and U(x.func.value) == D) or
+                         isinstance(x, (ast.Lambda, ast.FunctionDef))
+                         for b in n.body for x in ast.walk(b))
+            if not reads or unsafe:
+                continue
+            # only dict-like: the container must be read as D[k] somewhere - a list indexed by its own elements would not be; require that D is
+            # built by a dict display / comprehension / dict() in the same function
+            kk[0] += 1
+            fn = n
+            ok_dict = False
+            for f_ in ast.walk(tree):
+                if isinstance(f_, ast.FunctionDef) and any(x is n for x in ast.walk(f_)):
+                    for a_ in ast.walk(f_):
+                        if isinstance(a_, ast.Assign) and len(a_.targets) == 1 and U(a_.targets[0]) == D and \
+                                (isinstance(a_.value, (ast.Dict, ast.DictComp)) or (isinstance(a_.value, ast.Call) and U(a_.value.func) in ('dict', 'defaultdict', 'OrderedDict'))):
+                            ok_dict = True
+            if not ok_dict:
+                continue
+            count[0] += 1
+            v_ = '_v%d' % kk[0]
+            for x in reads:
+                x.__class__ = ast.Name
+                x.id = v_
+                x.ctx = ast.Load()
+                for f in ('value', 'slice'):
+                    if hasattr(x, f):
+                        delattr(x, f)
+            n.target = ast.Tuple(elts=[n.target, ast.Name(id=v_, ctx=ast.Store())], ctx=ast.Store())
+            n.iter = ast.Call(func=ast.Attribute(value=n.iter, attr='items', ctx=ast.Load()), args=[], keywords=[])
     elif how == 'ANDJOIN':
         class AJ(ast.NodeTransformer):
             def visit_If(self, st):
